@@ -183,7 +183,7 @@ def explore_core(ctx: Ctx, prop: CoreProp) -> Exploration:
                         kid = None
                         if expected in listed and (not match or any(m in what for m in match)):
                             kid = expected
-                        if kid is None and prop.classify is not None:
+                        if kid is None and prop.classify is not None and not meta.get("classify_off"):
                             # every trigger predicate that matches is a candidate; only findings the committed file
                             # lists for THIS property excuse the failure
                             c = prop.classify(prog, meta, what)
